@@ -21,7 +21,8 @@ Clauses(R) ==
   LET vs == SeqToSet(R.vars) IN
   FailNames(<<
     <<"C17.total",  R.exc = "" /\ \A j \in 1..Len(R.members) : R.members[j].exc = "">>,
-    <<"C17.equal",  R.exc = "" => R.vars = Variations(R.l)>>,
+    <<"C17.equal",  R.exc = "" => SeqToSet(R.vars) = VariationSet(R.l)>>,
+    <<"bind.varorder", R.exc = "" => R.vars = Variations(R.l)>>,
     <<"C17.head",   R.exc = "" => (Len(R.vars) >= 1 /\ R.vars[1] = R.l)>>,
     <<"C17.nodup",  Len(R.vars) = Cardinality(vs)>>,
     <<"C17.only",   \A v \in vs :
